@@ -6,7 +6,10 @@ ROOT = os.path.dirname(os.path.dirname(os.path.dirname(os.path.abspath(__file__)
 SPEC = {'C13': (['TantivyModel.Proofs.TinySet'], 'C13_src_tinyset_pop_lowest'),
         'C08': (['TantivyModel.Proofs.PureFns'], 'C08_src_zig_zag_bijection'),
         'C07': (['TantivyModel.Proofs.PureFns'], 'C07_src_skip_bitwidth_roundtrip')}
+ONLY = set(a.upper() for a in sys.argv[1:])
 for p, (imports, marker) in SPEC.items():
+    if ONLY and p not in ONLY:
+        continue
     f = os.path.join(ROOT, 'lean/TantivyModel/Props', p + '.lean')
     s = open(f).read()
     if marker in s:
@@ -24,6 +27,8 @@ for p, (imports, marker) in SPEC.items():
 HARNESS = {'c13': 'crate::purefns::check_tinyset(ctx, if ctx.thorough() { 4000 } else { 300 });',
            'c08': 'crate::purefns::check(ctx, &["mono", "bits"], if ctx.thorough() { 4000 } else { 300 });'}
 for m, call in HARNESS.items():
+    if ONLY and m.upper() not in ONLY:
+        continue
     f = os.path.join(ROOT, 'harness/src/props', m + '.rs')
     s = open(f).read()
     if call in s:
